@@ -749,7 +749,10 @@ def run(ctx):
                 "level (mocked GET) and end to end against the reference DAP4 server: rank 1 every index form without "
                 "pre-constraint (int32; float64/uint8/int16 on N = 4), every pre-constraint [a:s:b] inside the extent "
                 "(s ≤ 3) with sampled (quick) / all (thorough) forms, rank 1-3 sampled with leading-axis pre-constraints, "
-                "dtypes, both byte orders, named/anonymous dimensions. A case is non-trivial when its numpy selection is non-empty (others are outside the property and "
+                "dtypes, both byte orders, named/anonymous dimensions; end to end on VALUES (props/c02_e2e.py): 160 (quick) typed sources "
+                "over all 8 DAP2 types, rank 0-3, extents 1-5, C01's value generator, strided pre-constraints, arrays and grids with "
+                "typed maps — composed model vs the real pipeline, body bytes, parsed declaration, numpy oracle bit for bit; 300 "
+                "gather-vs-numpy cases rank 0-4. A case is non-trivial when its numpy selection is non-empty (others are outside the property and "
                 "skipped); distinct by (kind, shape, pre-constraint, index)")
     ctx.assumptions = ["numpy basic indexing is the oracle and the specification function (`sel`, `npSlices`: one "
                        "selection per axis)",
